@@ -25,6 +25,8 @@ type Event struct {
 	N   int    `json:"n"` // count / listener number / misc
 	Err bool   `json:"err,omitempty"`
 	Q   []int  `json:"q,omitempty"` // sequences (e.g. what a listener got, flattened)
+	Op  string `json:"op,omitempty"` // operation of a call ("start" events)
+	R   string `json:"r,omitempty"` // result of a call ("ret" events)
 }
 
 type Arrival struct {
@@ -166,9 +168,23 @@ func stableBlocked(state, stack string) bool {
 		if strings.HasPrefix(ln, "runtime.") || strings.HasPrefix(ln, "sync.") || strings.HasPrefix(ln, "internal/") || strings.HasPrefix(ln, "time.") {
 			continue
 		}
+		if strings.HasPrefix(ln, "github.com/libp2p/go-libp2p-pubsub.(*Subscription).Next") {
+			continue // the announce watcher waiting for the next pubsub message (called from go-libipni)
+		}
 		return strings.HasPrefix(ln, "github.com/ipni/go-libipni/")
 	}
 	return false
+}
+
+// BlockedIDs returns the goroutines confirmed blocked in a primitive of the library, with what is known of them.
+func (s *Sched) BlockedIDs() map[int64]string {
+	s.mu.Lock()
+	defer s.mu.Unlock()
+	out := map[int64]string{}
+	for g, w := range s.Blocked {
+		out[g] = w
+	}
+	return out
 }
 
 // Settle waits until every goroutine the driver set in motion is parked at a hook, has returned, or is
